@@ -526,7 +526,7 @@ Qed.
 Lemma ci_room_request h k q : CI h -> CI (fst (room_request h k q)).
 Proof.
   intros C. unfold room_request. destruct (room_of h k) as [r|]; [|exact C].
-  destruct q as [|users rs|tag|l|l|ic|tag].
+  destruct q as [|users rs|tag|l|l|ic|tag|ok]; [| | | | | | |exact C].
   - match goal with |- context [fold_sessions h ?int ?f] => set (internals := int); set (g := f) end.
     destruct (fold_sessions h internals g) as [h0 o0] eqn:H0.
     assert (C0 : CI h0).
@@ -603,7 +603,7 @@ Lemma ci_do_api h b room q : CI h -> CI (fst (do_api h b room q)).
 Proof.
   intros C. unfold do_api.
   pose proof ci_publish as Hpub.
-  destruct q as [|users rs|tag|l|l|ic|tag]; cbn [fst]; auto.
+  destruct q as [|users rs|tag|l|l|ic|tag|ok]; cbn [fst]; auto.
   - match goal with |- CI (fold_left ?f ?l ?h0) => apply (wf_fold_left_hub CI f l h0) end.
     + match goal with |- CI (fold_left ?f ?l ?h0) => apply (wf_fold_left_hub CI f l h0) end; auto.
     + intros hh x Hhh. destruct (aget (h_rs2 hh) (1000000 + x)); auto.
@@ -611,6 +611,10 @@ Proof.
     apply Hpub. match goal with |- CI (fold_left ?f ?l ?h0) => apply (wf_fold_left_hub CI f l h0) end; auto.
     intros hh [[i icv] pm] Hhh. destruct i; auto. destruct pm; auto.
   - match goal with |- context [match ?o with [] => _ | _ => _ end] => destruct o end; cbn [fst]; auto.
+  - (* dial-out *)
+    destruct ok; cbn [negb fst]; [|exact C]. destruct (dialout_session h b) as [sid|]; [|exact C].
+    destruct (send_session h sid (SDialout room)) as [h1 o1] eqn:H1. cbn [fst]. apply Hpub.
+    rewrite (fst_eq _ _ _ H1). now apply ci_send_session.
 Qed.
 
 Lemma ci_do_tick h secs : CI h -> CI (fst (do_tick h secs)).
